@@ -99,8 +99,8 @@ func (g *Gen) checkWrite(p string, n int64, pos token.Pos) {
 		}
 		g.oblige("frame", "", pos, sOr(alts...))
 	}
-	for _, l := range g.loops {
-		if l.Checked && l.Blocks[g.curBlock] {
+	for _, l := range g.activeLoops() {
+		if l.Checked {
 			alts := []string{app(">", pObj(p), l.HeadSt.Alloc)}
 			for _, r := range l.Regions {
 				hi := g.ptrAdd(p, g.M.IxLit(n-1))
@@ -124,8 +124,8 @@ func (g *Gen) checkRegionWrite(r Region, pos token.Pos, what string) {
 		}
 		g.oblige("frame", "", pos, sOr(alts...))
 	}
-	for _, l := range g.loops {
-		if l.Checked && l.Blocks[g.curBlock] {
+	for _, l := range g.activeLoops() {
+		if l.Checked {
 			alts := []string{app(">", r.Obj, l.HeadSt.Alloc), sEq(r.Obj, "0")}
 			if r.TypeID != "" {
 				alts = nil
@@ -492,6 +492,11 @@ func (g *Gen) panicInstr(x *ssa.Panic) {
 }
 
 func (g *Gen) ret(x *ssa.Return) {
+	// vacuity guard: every return must be reachable under all the facts collected so far
+	g.nret++
+	if !g.spec.DeadReturns[g.nret] {
+		g.obls = append(g.obls, &Obl{Name: fmt.Sprintf("%s:canary:return%d", g.key, g.nret), Kind: "canary", Func: g.key, Prefix: len(g.cmds), Goal: sNot(g.curPC), Canary: true, Pos: g.posOf(x.Pos())})
+	}
 	env := g.baseEnv()
 	env.st = g.cur
 	env.old = g.entry
@@ -523,4 +528,19 @@ func (g *Gen) ret(x *ssa.Return) {
 		}
 		g.oblige("ensures", labelOr(c.Label, c.Src), x.Pos(), s)
 	}
+}
+
+
+// activeLoops: the loops with a checked frame that contain the current program point.
+func (g *Gen) activeLoops() []*Loop {
+	if g.isC {
+		return g.cLoopStack
+	}
+	var out []*Loop
+	for _, l := range g.loops {
+		if l.Blocks[g.curBlock] {
+			out = append(out, l)
+		}
+	}
+	return out
 }
